@@ -233,10 +233,13 @@ func (r *Run) Finish(level string) int {
 	ev := Evidence{PropertyID: r.ID, Tier: r.Tier, Seed: r.Seed, Level: level, Coverage: r.cov,
 		Assumptions: r.assume, WallS: time.Since(r.Start).Seconds(), Violations: len(r.violations)}
 	b, _ := json.MarshalIndent(ev, "", " ")
-	os.MkdirAll(filepath.Join(Root, "evidence"), 0o755)
-	if err := os.WriteFile(filepath.Join(Root, "evidence", r.ID+".json"), b, 0o644); err != nil {
-		fmt.Println("cannot write evidence:", err)
-		return 2
+	// evidence/<id>.json exists for the properties only (selftest and the debugging entries are not properties)
+	if len(r.ID) == 3 && r.ID[0] == 'C' {
+		os.MkdirAll(filepath.Join(Root, "evidence"), 0o755)
+		if err := os.WriteFile(filepath.Join(Root, "evidence", r.ID+".json"), b, 0o644); err != nil {
+			fmt.Println("cannot write evidence:", err)
+			return 2
+		}
 	}
 	switch {
 	case len(r.violations) > 0:
